@@ -408,7 +408,7 @@ def distance_wei_floyd(adjacency, transform=None):
     for k in range(n):
         i2k_k2j = np.repeat(SPL[:, [k]], n, 1) + np.repeat(SPL[[k], :], n, 0)
 
-        path = SPL > i2k_k2j
+        path = SPL > i2k_k2j + 1e-10 * np.abs(i2k_k2j)
         i, j = np.where(path)
         hops[path] = hops[i, k] + hops[k, j]
         Pmat[path] = Pmat[i, k]
